@@ -8,6 +8,7 @@ import (
 	"sort"
 	"strconv"
 	"strings"
+	"sync"
 
 	"golang.org/x/tools/go/ssa"
 
@@ -134,7 +135,61 @@ func edgeAtom(iff *ssa.If, idx int) (string, bool) {
 	if call, nonNil, ok := paths.ErrEdge(iff, idx); ok {
 		return "err:" + calleeShort(call.Common()), nonNil
 	}
-	return condAtom(iff.Cond, idx == 0)
+	a, t := condAtom(iff.Cond, idx == 0)
+	if a != "" && !strings.HasPrefix(a, "call:") {
+		atomAliasMu.RLock()
+		al, ok := atomAlias[iff.Parent().Prog][a]
+		atomAliasMu.RUnlock()
+		if ok {
+			return al.atom, t == al.same
+		}
+	}
+	return a, t
+}
+
+// atomAlias maps the atom of a condition written out in place (`(m.connectFlags>>1)&1 == 1`) to the atom of the
+// parameterless boolean getter of the library that computes exactly this condition (`call:ConnectMessage.CleanSession`),
+// so that rules stated in terms of the getters keep applying when a getter is inlined. Filled by initAtomAliases.
+var atomAlias = map[*ssa.Program]map[string]aliasT{}
+var atomAliasMu sync.RWMutex
+
+type aliasT struct {
+	atom string
+	same bool
+}
+
+// initAtomAliases scans the library for single-block boolean getters whose result is a condition with an atom.
+func initAtomAliases(fns []*ssa.Function) {
+	if len(fns) == 0 {
+		return
+	}
+	tab := map[string]aliasT{}
+	defer func() {
+		atomAliasMu.Lock()
+		atomAlias[fns[0].Prog] = tab
+		atomAliasMu.Unlock()
+	}()
+	for _, fn := range fns {
+		if fn.Signature.Recv() == nil || len(fn.Params) != 1 || fn.Signature.Results().Len() != 1 || len(fn.Blocks) != 1 {
+			continue
+		}
+		if bt, ok := fn.Signature.Results().At(0).Type().Underlying().(*types.Basic); !ok || bt.Kind() != types.Bool {
+			continue
+		}
+		ret, ok := fn.Blocks[0].Instrs[len(fn.Blocks[0].Instrs)-1].(*ssa.Return)
+		if !ok || len(ret.Results) != 1 {
+			continue
+		}
+		a, t := condAtom(ret.Results[0], true)
+		if a == "" || strings.HasPrefix(a, "call:") || strings.HasPrefix(a, "field:") {
+			continue
+		}
+		name := "call:" + namedName(fn.Signature.Recv().Type()) + "." + fn.Name()
+		if _, dup := tab[a]; dup {
+			continue
+		}
+		tab[a] = aliasT{name, t}
+	}
 }
 
 // condAtom names what it means for the boolean value v to have the given truth.
@@ -192,8 +247,12 @@ func condAtom(v ssa.Value, truth bool) (string, bool) {
 				if x.Op == token.NEQ {
 					t = !t
 				}
-				if what := describeOperand(other); what != "" {
-					kv := cst.Value.ExactString()
+				what, kv := describeOperand(other), cst.Value.ExactString()
+				// ((x >> k) & c) cmp v  is  (x & (c<<k)) cmp (v<<k)
+				if w2, k2, ok := shiftedMask(other, cst); ok {
+					what, kv = w2, k2
+				}
+				if what != "" {
 					// canonical form of a single-bit test: (x & m) == m  <=>  (x & m) != 0 for a one-bit m
 					if i := strings.LastIndex(what, "&"); i >= 0 && what[i+1:] == kv && kv != "0" {
 						if m, err := strconv.ParseUint(kv, 10, 64); err == nil && m&(m-1) == 0 {
@@ -293,6 +352,42 @@ func describeOperand(v ssa.Value) string {
 		return o.Name()
 	}
 	return ""
+}
+
+// shiftedMask recognises ((x >> k) & c) compared with the constant v and returns the operand "x&(c<<k)" and the
+// constant v<<k of the equivalent comparison without the shift.
+func shiftedMask(v ssa.Value, cst *ssa.Const) (string, string, bool) {
+	if cv, ok := v.(*ssa.Convert); ok {
+		v = cv.X
+	}
+	and, ok := v.(*ssa.BinOp)
+	if !ok || and.Op != token.AND {
+		return "", "", false
+	}
+	mk, ok := and.Y.(*ssa.Const)
+	if !ok || mk.Value == nil {
+		return "", "", false
+	}
+	x := and.X
+	if cv, ok := x.(*ssa.Convert); ok {
+		x = cv.X
+	}
+	shr, ok := x.(*ssa.BinOp)
+	if !ok || shr.Op != token.SHR {
+		return "", "", false
+	}
+	sk, ok := shr.Y.(*ssa.Const)
+	if !ok || sk.Value == nil {
+		return "", "", false
+	}
+	inner := describeOperand(shr.X)
+	m, ok1 := constant.Uint64Val(constant.ToInt(mk.Value))
+	k, ok2 := constant.Uint64Val(constant.ToInt(sk.Value))
+	val, ok3 := constant.Uint64Val(constant.ToInt(cst.Value))
+	if inner == "" || !ok1 || !ok2 || !ok3 || k > 32 {
+		return "", "", false
+	}
+	return inner + "&" + strconv.FormatUint(m<<k, 10), strconv.FormatUint(val<<k, 10), true
 }
 
 // calleeShort: "Type.Method" or "pkg.Func".
